@@ -305,6 +305,23 @@ def b_lookups(ctx):
         wantm = np.array([float(Binned(law, mx * r, nb).stress(0.4137 * mx * r)) for r in ratios])
         if not np.allclose(gotm, wantm, rtol=5e-4):
             ctx.fail(f'C07:per-point-lookup:{lname}', f'per-point look-up {gotm.tolist()} != single-point look-ups {wantm.tolist()}', {'law': lname, 'bins': nb, 'max': mx})
+        # the points of a component may be loaded in opposite directions (tension / compression side): every point gets the sign of ITS load (range), in all four
+        # functions (added after seed C07-f applied the first point's sign to all points)
+        sgn = np.array([1.0, -1.0, 1.0])
+        lm_ = pd.Series(loads.to_numpy() * sgn, index=loads.index)
+        singles = [Binned(law, mx * r, nb) for r in ratios]
+        for fname, fac in (('stress', 1.0), ('stress_secondary_branch', 2.0)):
+            g_ = np.asarray(getattr(bm, fname)(fac * lm_), dtype=float)
+            w_ = np.array([float(getattr(singles[k_], fname)(fac * float(lm_.iloc[k_]))) for k_ in range(3)])
+            ctx.case(True, key=(lname, nb, mx, 'mixed-signs', fname))
+            if not np.allclose(g_, w_, rtol=5e-4):
+                ctx.fail(f'C07:per-point-lookup:mixed-signs:{fname}:{lname}', f'{fname} of the per-point loads {(fac * lm_).tolist()} = {g_.tolist()}, each point alone {w_.tolist()}', {'law': lname, 'bins': nb, 'max': mx})
+                continue
+            sfn = 'strain' if fname == 'stress' else 'strain_secondary_branch'
+            ge_ = np.asarray(getattr(bm, sfn)(pd.Series(g_, index=lm_.index), fac * lm_), dtype=float)
+            we_ = np.array([float(getattr(singles[k_], sfn)(w_[k_], fac * float(lm_.iloc[k_]))) for k_ in range(3)])
+            if not np.allclose(ge_, we_, rtol=5e-4):
+                ctx.fail(f'C07:per-point-lookup:mixed-signs:{sfn}:{lname}', f'{sfn} of the per-point loads {(fac * lm_).tolist()} = {ge_.tolist()}, each point alone {we_.tolist()}', {'law': lname, 'bins': nb, 'max': mx})
     # a single bin
     if ctx.shard == 0:
         for lname, law in laws:
